@@ -13,7 +13,7 @@ vars == <<cls, arr, par, ph>>
 (* placeholder patterns: sets of POSITIONS whose identifier is replaced by None *)
 Patterns(c) ==
    IF c \in AtomClasses
-     THEN {{}} \cup { {i} : i \in 2..Arity(c) }
+     THEN {{}} \cup { {i, j} : i \in 2..Arity(c), j \in 2..Arity(c) }     \* one (i = j) or two placeholders
      ELSE {{}} \cup { {i} : i \in {1,2,5,6} } \cup { {i,j} : i \in {1,2}, j \in {5,6} }
 
 (* with a placeholder only ligand permutations are enumerated (centre fixed) *)
